@@ -35,12 +35,20 @@ def run(ctx, report):
     report.section("SAMI", sami_site, ctx, report, ev, folder)
     report.section("append-order", append_order, ctx, report)
     report.section("Caption guards", caption_guards, ctx, report)
+    from . import timestamp_fold
+    report.section("lexical forms", timestamp_fold.run, ctx, report)
+    from . import srt_doc_fold
+    report.section("SRT documents", srt_doc_fold.run, ctx, report, {
+        "cues": ("R-SEGMENT", "4", "SRT: one caption per cue of the document, whatever blank line separates the cues"),
+        "times": ("R-SEGMENT", "4", "SRT: each caption carries the instants of its own timing line, in document order"),
+        "text": ("R-SEGMENT", "4", "SRT: each caption holds the text lines of its own cue"),
+    })
     n_sites = report.counters.get("conversion_sites", 0)
     if n_sites < 10 and not report.analysis_errors:
         raise AnalysisError(f"only {n_sites} time-conversion sites analysed (floor 10)")
     report.not_decided += [
         "that splitlines / BeautifulSoup find_all / select deliver the cues the document contains",
-        "SRT block segmentation (_find_text_line) and WebVTT cue segmentation over arbitrary documents",
+        "SRT block segmentation beyond the generated documents (<= 3 cues) and WebVTT cue segmentation over arbitrary documents",
         "ignore_timing_errors validation outcomes"]
     report.assume("int(str) / float(str) / Fraction(str) read a decimal numeral exactly / to nearest / exactly")
     report.assume("binary float arithmetic: each operation is correctly rounded (IEEE 754)")
@@ -577,7 +585,7 @@ def _fold_frames(clock, folder):
 def microdvd_site(ctx, report, ev, folder):
     path = "pycaption/microdvd.py"
     fn = ctx.index.get_function(path, "MicroDVDReader._framestomicro")
-    rd = ctx.index.get_function(path, "MicroDVDReader.read")
+    rd = ctx.index.get_function(path, "MicroDVDReader.read", inline=True, keep=("_framestomicro",))
     report.covered(fn)
     report.covered(rd)
     outs = ev().run(fn)
@@ -629,6 +637,7 @@ def microdvd_site(ctx, report, ev, folder):
             defs.append(n.value)
     kinds = []
     for d in defs:
+        d = resolve_local(rd, d) if isinstance(d, ast.Name) else d
         if isinstance(d, ast.Constant):
             kinds.append(("default", d.value))
         elif isinstance(d, ast.Call) and call_name(d) in ("float", "Fraction", "Decimal", "int"):
@@ -860,7 +869,7 @@ REORDERING = {"insert", "sort", "reverse", "pop", "remove", "appendleft", "clear
 
 def append_order(ctx, report):
     for path, q in READERS:
-        fn = ctx.index.get_function(path, q)
+        fn = ctx.index.get_function(path, q, inline=True)     # appends made through private helpers count
         report.covered(fn)
         # the result list: a name bound to CaptionList(...)
         names = set()
@@ -901,21 +910,38 @@ def append_order(ctx, report):
 
 
 def caption_guards(ctx, report):
+    """Caption.__init__ folded on the finite domain {number, non-number}^2 for (start, end): it must refuse
+    with the timing error unless both are numbers, and otherwise store exactly what it was given."""
+    from ..core.constfold import Folder, Stub, FoldRaise
     fn = ctx.index.get_function("pycaption/base.py", "Caption.__init__")
     report.covered(fn)
-    body = fn.node.body
-    guard_pos = {}
-    store_pos = {}
-    for i, st in enumerate(body):
-        if isinstance(st, ast.If) and any(isinstance(x, ast.Raise) for x in st.body):
-            t = src(st.test)
-            for name in ("start", "end"):
-                if re.fullmatch(rf"not isinstance\({name}, (numbers\.)?Number\)", t):
-                    guard_pos[name] = i
-        if isinstance(st, ast.Assign) and isinstance(st.targets[0], ast.Attribute) \
-                and isinstance(st.targets[0].value, ast.Name) and st.targets[0].value.id == "self":
-            store_pos[st.targets[0].attr] = i
+    folder = ctx.memo("folder", lambda: Folder(ctx.index))
+    good = (0, 1500000, 2.5)
+    badv = (None, "00:00:01.000", [1])
     for name in ("start", "end"):
-        ok = name in guard_pos and name in store_pos and guard_pos[name] < store_pos[name]
-        report.check(ok, "R-DOMINATES", fn, f"isinstance({name}, Number) guard dominates the store of self.{name}",
-                     {"guard_statement_index": guard_pos.get(name), "store_statement_index": store_pos.get(name)}, "5")
+        problems = []
+        n = 0
+        for mine in good + badv:
+            for other in good[:2] + badv[:2]:
+                start, end = (mine, other) if name == "start" else (other, mine)
+                obj = Stub("caption", {}, cls=fn.cls)
+                n += 1
+                try:
+                    folder.call_function(fn, [start, end, ["node"]], {}, self_value=obj)
+                    raised = None
+                except FoldRaise as e:
+                    raised = e.exc_name
+                except AnalysisError as e:
+                    raise AnalysisError(f"Caption.__init__ cannot be folded: {e}")
+                if mine in badv:
+                    if raised is None:
+                        problems.append(f"{name}={mine!r} is accepted")
+                    elif other in good and "Timing" not in (raised or ""):
+                        problems.append(f"{name}={mine!r} is refused with {raised}, not the timing error")
+                elif other in good:
+                    if raised is not None:
+                        problems.append(f"numeric times ({start!r}, {end!r}) are refused with {raised}")
+                    elif obj.attrs.get(name) != mine or type(obj.attrs.get(name)) is not type(mine):
+                        problems.append(f"{name}={mine!r} is stored as {obj.attrs.get(name)!r}")
+        report.check(not problems, "R-DOMINATES", fn, f"isinstance({name}, Number) guard dominates the store of self.{name}",
+                     {"folded_calls": n, "problems": problems[:4]}, "5")
